@@ -129,6 +129,13 @@ NoSenderNeverEnters == \A r \in Reqs : PeerOf[r] = 0 => st[r] \in {"new", "inter
 
 Invariants == Bound /\ NoLeak /\ FullAtRest /\ NoIdleWait /\ NoSenderNeverEnters
 
+(* InflightProof.tla proves the accounting for any maximum, any number of requests and any      *)
+(* schedule (TLAPS); every peer of this model, its requests counted by stage, behaves like it  *)
+IP(p) == INSTANCE InflightProof WITH Block <- (Mode = "Block"), permits <- permits[p],
+                                     r <- Cardinality(Running(p)), g <- Cardinality(Granted(p)),
+                                     w <- Len(queue[p])
+RefinesInflightProof == IP(1)!Spec /\ IP(2)!Spec
+
 (* behaviours for replay: printed when complete *)
 Terminal == \A r \in Reqs : st[r] \notin {"new", "waiting", "granted", "running"}
 Emit == (Depth > 0 /\ (Len(hist) = Depth \/ Terminal)) => PrintT(<<"REPLAY", ToJson(hist)>>)
